@@ -719,6 +719,13 @@ impl Generator {
                     Surgery::InstallReverseChain { .. }
                     | Surgery::InstallExpansion { .. }
                     | Surgery::InstallContextFanout { .. } => &["GSUB"],
+                    Surgery::InstallAliasedLists { table, .. } => {
+                        if table == "GPOS" {
+                            &["GPOS"]
+                        } else {
+                            &["GSUB"]
+                        }
+                    }
                     Surgery::InstallVertical { .. } => &["vhea", "vmtx"],
                     Surgery::CompactHmtx { .. } => &["hmtx", "hhea"],
                     Surgery::MacRomanCmap { .. } => &["cmap"],
@@ -1605,6 +1612,7 @@ fn gen_install(rng: &mut Rng, info: &FontInfo, prop: &str) -> Option<(FontInfo, 
     let want_vargpos = info.axes > 0 && rng.pct(p_vargpos);
     let want_rchain = !want_vargpos && rng.pct(p_rchain);
     let mut want_expansion = false;
+    let mut alias_gpos = false;
     let want_morx = !want_vargpos && !want_rchain && rng.pct(p_morx);
     let want_kern = !want_vargpos && !want_rchain && !want_morx && rng.pct(p_kern);
     let mut want_frac = false;
@@ -1668,7 +1676,48 @@ fn gen_install(rng: &mut Rng, info: &FontInfo, prop: &str) -> Option<(FontInfo, 
                 // order other than first appearance
                 glyphs.reverse();
             }
-            if want_rchain && rng.pct(20) {
+            if want_rchain && rng.pct(14) {
+                want_expansion = true;
+                // aliased ScriptList / FeatureList records: mostly small (a valid font that
+                // shapes), some around the library's entry limit, some as large as offsets allow
+                let (scripts, langsys, features, frecs, lookups) = match rng.below(100) {
+                    0..=59 => (
+                        1 + rng.below(8) as u16,
+                        rng.below(5) as u16,
+                        1 + rng.below(10) as u16,
+                        2 + rng.below(8) as u16,
+                        1 + rng.below(4) as u16,
+                    ),
+                    60..=74 => *rng.pick(&[
+                        (16u16, 15u16, 4095u16, 2u16, 1u16),
+                        (16, 16, 4096, 2, 1),
+                        (64, 3, 4000, 4, 2),
+                        (2, 1, 3, 1024, 1023),
+                        (2, 1, 3, 1025, 1024),
+                        (1000, 1, 500, 16, 65535),
+                    ]),
+                    75..=89 => (
+                        *rng.pick(&[100u16, 2000, 10900, 10922]),
+                        *rng.pick(&[1u16, 15, 16]),
+                        *rng.pick(&[1000u16, 65535]),
+                        2,
+                        1,
+                    ),
+                    _ => (2, 0, 2, *rng.pick(&[500u16, 10900, 10922]), *rng.pick(&[3000u16, 65535])),
+                };
+                alias_gpos = rng.pct(25);
+                surgeries.push(Surgery::InstallAliasedLists {
+                    table: if alias_gpos { "GPOS" } else { "GSUB" }.to_string(),
+                    glyph: glyphs[0],
+                    scripts,
+                    langsys,
+                    features,
+                    frecs,
+                    lookups,
+                });
+                let c = if reversed { chars[chars.len() - 1] } else { chars[0] };
+                chars = vec![c];
+            } else if want_rchain && rng.pct(20) {
                 want_expansion = true;
                 let (records, depth) = match rng.below(100) {
                     0..=79 => (1 + rng.below(6) as u16, 1 + rng.below(3) as u8),
@@ -1868,7 +1917,13 @@ fn gen_install(rng: &mut Rng, info: &FontInfo, prop: &str) -> Option<(FontInfo, 
         } else {
             modified.gpos_features.clear();
         }
-        if want_expansion {
+        if want_expansion && alias_gpos {
+            modified.gpos_features = vec![
+                (crate::trace::tag_from_str("ccmp"), vec![0]),
+                (crate::trace::tag_from_str("kern"), vec![0]),
+            ];
+            modified.scripts = vec!["latn".to_string(), "DFLT".to_string()];
+        } else if want_expansion {
             modified.long_text_ok = false;
             modified.gsub_features = vec![
                 (crate::trace::tag_from_str("ccmp"), vec![0]),
